@@ -43,7 +43,26 @@ class Fact:
         return ('' if self.pol else 'not ') + '(' + self.text + ')'
 
 
+def _desugar_in(test):
+    """`x in (a, b)` / `x not in [a, b]` over a display of constants, names or dotted names -> `x == a or x == b` (negated for
+    `not in`): one canonical spelling of a membership test in a fixed set"""
+    if isinstance(test, ast.Call) and isinstance(test.func, ast.Name) and test.func.id == 'bool' and len(test.args) == 1 and not test.keywords:
+        return _desugar_in(test.args[0])                   # the truth of bool(x) is the truth of x
+    if isinstance(test, ast.Compare) and len(test.ops) == 1 and isinstance(test.ops[0], (ast.In, ast.NotIn)):
+        c = test.comparators[0]
+        if isinstance(c, (ast.Tuple, ast.List, ast.Set)) and c.elts and all(isinstance(e, (ast.Constant, ast.Name, ast.Attribute)) for e in c.elts):
+            eqs = [ast.copy_location(ast.Compare(left=test.left, ops=[ast.Eq()], comparators=[e]), test) for e in c.elts]
+            out = eqs[0] if len(eqs) == 1 else ast.copy_location(ast.BoolOp(op=ast.Or(), values=eqs), test)
+            if isinstance(test.ops[0], ast.NotIn):
+                out = ast.copy_location(ast.UnaryOp(op=ast.Not(), operand=out), test)
+            return out
+    return test
+
+
 def _atom(test, pol):
+    test = _desugar_in(test)
+    if isinstance(test, ast.UnaryOp) and isinstance(test.op, ast.Not):
+        return _atom(test.operand, not pol)
     if isinstance(test, ast.BoolOp):
         # order-insensitive rendering over canonical sub-atoms; a disjunction is written as the negated conjunction of the negated
         # parts (de Morgan), so `a or b`, `not (not a and not b)` and their operand orders share one key
@@ -98,6 +117,7 @@ def _atom(test, pol):
 def implied(test, pol):
     """Facts implied by ``test`` evaluating to ``pol``."""
     out = []
+    test = _desugar_in(test)
     if isinstance(test, ast.UnaryOp) and isinstance(test.op, ast.Not):
         return implied(test.operand, not pol)
     if isinstance(test, ast.BoolOp):
@@ -223,6 +243,19 @@ def _own_exprs(stmt):
     if isinstance(stmt, ast.ExceptHandler):
         return [stmt.type] if stmt.type else []
     return [stmt]
+
+
+_PURE_BUILTINS = {'len', 'int', 'float', 'bool', 'abs', 'min', 'max', 'str', 'tuple', 'bytes', 'ord', 'chr', 'round', 'isinstance'}
+
+
+def _pure_value(e):
+    """an explaining variable: no call other than a pure builtin, nothing deferred"""
+    for x in ast.walk(e):
+        if isinstance(x, ast.Call) and not (isinstance(x.func, ast.Name) and x.func.id in _PURE_BUILTINS):
+            return False
+        if isinstance(x, (ast.Await, ast.Yield, ast.YieldFrom, ast.Lambda, ast.NamedExpr, ast.ListComp, ast.GeneratorExp, ast.DictComp, ast.SetComp)):
+            return False
+    return True
 
 
 def walk_own(root):
@@ -553,6 +586,7 @@ class CFG:
         that value was assigned (`found = False; for ..: if c: found = True; break` ... `if found:` carries c)."""
         out = []
         for e in self.dominating_edges(n):
+            out.extend(self._expanded_edge_facts(e))
             for f in e.facts():
                 out.append(f)
                 if _depth < 2 and isinstance(f.node, ast.Name) and f.op is None and f.text == f.node.id:
@@ -573,6 +607,32 @@ class CFG:
                                 all({d.id for d in self.reaching_defs(defs[0], nm)} == {d.id for d in self.reaching_defs(src, nm)} for nm in names):
                             out.extend(implied(v, f.pol))
         return out
+
+    def _expanded_edge_facts(self, e):
+        """facts of a branch edge with explaining variables read through: `m = d[0:len(p)]; if p == m:` also carries
+        `p == d[0:len(p)]`.  Only definitions that are pure and whose operands still have the value they had at the definition."""
+        cache = self.__dict__.setdefault('_xfacts', {})
+        if e.id not in cache:
+            res = []
+            if e.label and e.label[0] == 'cond' and any(isinstance(x, ast.Name) for x in ast.walk(e.label[1])):
+                import itertools
+                names = sorted({x.id for x in ast.walk(e.label[1]) if isinstance(x, ast.Name)})
+                seen = {norm(e.label[1])}
+                cands = []
+                try:
+                    expandable = [nm for nm in names if norm(self.expand_locals(e.src, ast.Name(id=nm, ctx=ast.Load()), depth=1, stable=True)) != nm][:3]
+                    for k in range(1, len(expandable) + 1):
+                        for sub in itertools.combinations(expandable, k):
+                            cands.append(self.expand_locals(e.src, e.label[1], depth=1, stable=True, only=set(sub)))
+                    cands.append(self.expand_locals(e.src, e.label[1], stable=True))
+                except RecursionError:
+                    cands = []
+                for ex in cands:
+                    if norm(ex) not in seen:
+                        seen.add(norm(ex))
+                        res.extend(implied(ex, e.label[2]))
+            cache[e.id] = res
+        return cache[e.id]
 
     def fact_keys_at(self, n):
         return {f.key() for f in self.facts_at(n)}
@@ -636,9 +696,18 @@ class CFG:
         return None
 
     def reaching_defs(self, node, name):
-        """Assignment nodes ``name = ...`` (plain or augmented) whose value can reach ``node`` without being overwritten."""
-        defs = [n for n in self.nodes if n.kind == 'stmt' and isinstance(n.ast, (ast.Assign, ast.AugAssign, ast.AnnAssign)) and
-                any(norm(t) == name for t in (n.ast.targets if isinstance(n.ast, ast.Assign) else [n.ast.target]))]
+        """Nodes that bind ``name`` (assignment, also as an element of a tuple target; augmented; loop target) and whose value can
+        reach ``node`` without being overwritten.  The entry node is included when ``name`` can reach ``node`` from the function entry
+        without any of them (a parameter, or unbound)."""
+        def binds(n):
+            if n.kind == 'stmt' and isinstance(n.ast, (ast.Assign, ast.AugAssign, ast.AnnAssign)):
+                for t in (n.ast.targets if isinstance(n.ast, ast.Assign) else [n.ast.target]):
+                    if norm(t) == name or (isinstance(t, (ast.Tuple, ast.List)) and any(norm(e) == name for e in ast.walk(t) if isinstance(e, (ast.Name, ast.Attribute)))):
+                        return True
+            if n.kind == 'for' and any(isinstance(e, ast.Name) and e.id == name for e in ast.walk(n.ast.target)):
+                return True
+            return False
+        defs = [n for n in self.nodes if binds(n)]
         out = []
         for d in defs:
             if d is node:
@@ -646,15 +715,83 @@ class CFG:
             others = [x for x in defs if x is not d]
             if self.path_avoiding(d, [node], avoid=others) is not None:
                 out.append(d)
+        if defs and '.' not in name and self.entry is not node and self.path_avoiding(self.entry, [node], avoid=defs) is not None:
+            out.append(self.entry)
         return out
+
+    @staticmethod
+    def def_value(d, name):
+        """the expression bound to ``name`` by the definition node ``d`` (element-wise through `a, b = x, y`), else None"""
+        if d.ast is None or not isinstance(d.ast, ast.Assign) or len(d.ast.targets) != 1:
+            return None
+        t, v = d.ast.targets[0], d.ast.value
+        if norm(t) == name:
+            return v
+        if isinstance(t, (ast.Tuple, ast.List)) and isinstance(v, (ast.Tuple, ast.List)) and len(t.elts) == len(v.elts) and \
+                not any(isinstance(e, ast.Starred) for e in list(t.elts) + list(v.elts)):
+            for te, ve in zip(t.elts, v.elts):
+                if norm(te) == name:
+                    return ve
+        return None
 
     def resolve_local(self, node, expr):
         """``expr`` if it is not a plain name; otherwise the value of its single reaching plain assignment at ``node`` (one level), else ``expr``."""
         if isinstance(expr, ast.Name):
             ds = self.reaching_defs(node, expr.id)
-            if len(ds) == 1 and isinstance(ds[0].ast, ast.Assign) and len(ds[0].ast.targets) == 1 and isinstance(ds[0].ast.targets[0], ast.Name):
-                return ds[0].ast.value
+            if len(ds) == 1 and self.def_value(ds[0], expr.id) is not None:
+                return self.def_value(ds[0], expr.id)
         return expr
+
+    def expand_locals(self, node, expr, depth=4, stable=False, only=None):
+        """copy of ``expr`` in which every local name with a single reaching plain assignment at ``node`` is replaced by the assigned
+        expression (recursively): the expression as the code wrote it before explaining variables were introduced.  The value is the
+        one at the definition; callers that care about state changed in between must check that themselves."""
+        import copy as _copy
+        g = self
+
+        def at(n_, e, d):
+            class T(ast.NodeTransformer):
+                def visit_Name(self, x):
+                    if isinstance(x.ctx, ast.Load) and d > 0 and (only is None or x.id in only):
+                        ds = g.reaching_defs(n_, x.id)
+                        dv = g.def_value(ds[0], x.id) if len(ds) == 1 else None
+                        if dv is not None and ds[0] is not n_ and _pure_value(dv):
+                            if stable and not all({q.id for q in g.reaching_defs(ds[0], nm)} == {q.id for q in g.reaching_defs(node, nm)}
+                                                  for nm in {y.id for y in ast.walk(dv) if isinstance(y, ast.Name)}):
+                                return x
+                            return at(ds[0], dv, d - 1)
+                    return x
+
+                def visit_Lambda(self, x):
+                    return x
+            return T().visit(_copy.deepcopy(e))
+        return at(node, expr, depth)
+
+    def node_of(self, sub):
+        """the CFG node whose statement / test contains the AST node ``sub``"""
+        best = None
+        for n in self.nodes:
+            if n.ast is None:
+                continue
+            if n.kind in ('if', 'while') and hasattr(n.ast, 'test'):
+                roots = [n.ast.test]
+            elif n.kind == 'for':
+                roots = [n.ast.iter]
+            elif isinstance(n.ast, ast.With):
+                roots = [i.context_expr for i in n.ast.items]
+            elif isinstance(n.ast, (ast.Try, ast.FunctionDef, ast.ClassDef)):
+                roots = []
+            else:
+                roots = [n.ast]
+            for r in roots:
+                size = 0
+                hit = False
+                for x in ast.walk(r):
+                    size += 1
+                    hit = hit or x is sub
+                if hit and (best is None or size < best[0]):
+                    best = (size, n)
+        return best[1] if best else None
 
     def all_paths_pass(self, src, targets, through):
         """True iff every path from ``src`` to ``targets`` enters a node of ``through``."""
